@@ -1,5 +1,5 @@
 import PrimaiteModel.Model.AgentsTap
-import PrimaiteModel.Gen.AgentsCtl
+import PrimaiteModel.Gen.AgentsGet
 open Primaite Primaite.Agents
 
 /-! Line protocol of the C19 driver (one op per line, one answer per line):
@@ -151,13 +151,13 @@ def step (st : DState) : List String → DState × String
     | some tb =>
       let sh : Option (List Nat) → String := fun o => match o with
         | none => "raised" | some ws => ",".intercalate (ws.map toString)
-      (st, s!"{sh (Primaite.Gen.AgentsCtl.probabilities tb)} {sh (Table.vectorByKey tb)}")
+      (st, s!"{sh (Primaite.Gen.AgentsGet.probabilities tb)} {sh (Table.vectorByKey tb)}")
     | none => (st, "bad-op")
   | ["gen-periodic", mx, f, v, t, d, nx, ne] =>
     -- the TRANSLATED `PeriodicAgent.get_action` on one state (next, numExec)
     match ints [mx, f, v, t, d, nx, ne] with
     | some [mx, f, v, t, d, nx, ne] =>
-      let g := Primaite.Gen.AgentsCtl.periodicGetAction mx f v t d { next := nx, numExec := ne }
+      let g := Primaite.Gen.AgentsGet.periodicGetAction mx f v t d { next := nx, numExec := ne }
       (st, if g.1.raised then "raised" else s!"{g.2.1} {g.1.next} {g.1.numExec}")
     | _ => (st, "bad-op")
   | ["prob", ord, n, un, ud, tb] =>
